@@ -307,3 +307,245 @@ Proof.
   unfold ds_frames. induction frames as [|fr t IH]; simpl; auto.
   destruct (existsb nonempty (considered uo fr)); simpl; rewrite IH; reflexivity.
 Qed.
+
+(* ------------------------------------- the caller's labels afterwards (F110) -- *)
+
+Lemma filter_all_id : forall A (g : A -> bool) l, forallb g l = true -> filter g l = l.
+Proof.
+  induction l as [|a t IH]; simpl; auto. intro H. apply andb_true_iff in H. destruct H as [Ha Ht].
+  rewrite Ha. f_equal. auto.
+Qed.
+
+Lemma filter_id_all : forall A (g : A -> bool) l, filter g l = l -> forallb g l = true.
+Proof.
+  induction l as [|a t IH]; simpl; auto. destruct (g a) eqn:E; intro H.
+  - inversion H as [H1]. rewrite H1. simpl. apply IH. exact H1.
+  - exfalso. pose proof (filter_len_le A g t) as L. rewrite H in L. simpl in L. lia.
+Qed.
+
+Lemma existsb_negb_forallb : forall A (g : A -> bool) l,
+  existsb (fun x => negb (g x)) l = negb (forallb g l).
+Proof. induction l as [|a t IH]; simpl; auto. rewrite IH. destruct (g a); reflexivity. Qed.
+
+(* outside the selector the user filter keeps every instance of the frame ... *)
+Lemma rebind_same_l : forall uo fr, selector_F110 uo fr = false -> rebind uo fr = fr.
+Proof.
+  intros [|] fr H; [|reflexivity]. unfold selector_F110, mixed in H. simpl in H.
+  destruct (existsb li_user fr) eqn:E.
+  - simpl in H. rewrite existsb_negb_forallb in H. apply negb_false_iff in H.
+    rewrite rebind_users_l by assumption. apply filter_all_id. assumption.
+  - apply rebind_no_users_l. assumption.
+Qed.
+
+(* ... and under it at least one (predicted) instance is dropped *)
+Lemma rebind_diff_l : forall uo fr, selector_F110 uo fr = true -> rebind uo fr <> fr.
+Proof.
+  intros uo fr H. unfold selector_F110, mixed in H.
+  apply andb_true_iff in H. destruct H as [-> H]. apply andb_true_iff in H. destruct H as [Hu Hp].
+  rewrite rebind_users_l by assumption. intro E. apply filter_id_all in E.
+  rewrite existsb_negb_forallb, E in Hp. discriminate.
+Qed.
+
+Lemma rebind_changes_iff_l : forall uo fr, rebind uo fr <> fr <-> selector_F110 uo fr = true.
+Proof.
+  intros uo fr. split.
+  - intro H. destruct (selector_F110 uo fr) eqn:E; auto. exfalso. apply H. apply rebind_same_l. assumption.
+  - apply rebind_diff_l.
+Qed.
+
+Lemma rebind_drops_l : forall uo fr, selector_F110 uo fr = true ->
+  (length (rebind uo fr) < length fr)%nat /\
+  (forall li, In li (rebind uo fr) -> li_user li = true) /\
+  exists li, In li fr /\ li_user li = false /\ ~ In li (rebind uo fr).
+Proof.
+  intros uo fr H. pose proof (rebind_diff_l uo fr H) as D. unfold selector_F110, mixed in H.
+  apply andb_true_iff in H. destruct H as [-> H]. apply andb_true_iff in H. destruct H as [Hu Hp].
+  rewrite rebind_users_l in * by assumption.
+  assert (Hall : forall li, In li (filter li_user fr) -> li_user li = true).
+  { intros li Hin. apply filter_In in Hin. tauto. }
+  split; [|split; auto].
+  - clear - Hp. induction fr as [|a t IH]; simpl in *; [discriminate|].
+    destruct (li_user a) eqn:E; simpl in *.
+    + apply IH in Hp. lia.
+    + pose proof (filter_len_le _ li_user t). lia.
+  - apply existsb_exists in Hp. destruct Hp as [li [Hin Hn]]. apply negb_true_iff in Hn.
+    exists li. repeat split; auto. intro Hc. apply Hall in Hc. congruence.
+Qed.
+
+Lemma map_id_on : forall A (g : A -> A) l, (forall x, In x l -> g x = x) -> map g l = l.
+Proof. induction l as [|a t IH]; simpl; auto. intro H. f_equal; auto. Qed.
+
+Lemma labels_unchanged_partial_l : forall uo frames,
+  (forall fr, In fr frames -> selector_F110 uo fr = false) -> labels_after false uo frames = frames.
+Proof. intros uo frames H. apply map_id_on. intros fr Hin. apply rebind_same_l. auto. Qed.
+
+Lemma labels_changed_iff_l : forall uo frames,
+  labels_after false uo frames <> frames <-> exists fr, In fr frames /\ selector_F110 uo fr = true.
+Proof.
+  intros uo frames. split.
+  - induction frames as [|fr t IH]; [intro H; exfalso; apply H; reflexivity|]. intro H.
+    change (rebind uo fr :: labels_after false uo t <> fr :: t) in H.
+    destruct (selector_F110 uo fr) eqn:E; [exists fr; simpl; auto|].
+    destruct IH as [x [Hin Hx]].
+    + intro Ht. apply H. rewrite Ht. f_equal. apply rebind_same_l. assumption.
+    + exists x. simpl; auto.
+  - intros [fr [Hin Hs]] E. apply (rebind_diff_l uo fr Hs).
+    clear Hs. induction frames as [|a t IH]; [inversion Hin|].
+    change (rebind uo a :: labels_after false uo t = a :: t) in E. inversion E as [[Ea Et]].
+    destruct Hin as [->|Hin]; auto.
+Qed.
+
+Lemma labels_unchanged_fixed_l : forall uo frames, labels_after true uo frames = frames.
+Proof. intros. apply map_id_on. reflexivity. Qed.
+
+(* a dataset built over labels another dataset (same user_instances_only) was built over before
+   selects the same frames and instances: the filter is idempotent *)
+Lemma frame_after_considered : forall b uo fr, considered uo (frame_after b uo fr) = considered uo fr.
+Proof. intros [|] uo fr; [reflexivity|apply considered_rebind]. Qed.
+
+Lemma ds_frames_after_l : forall b uo frames, ds_frames uo (labels_after b uo frames) = ds_frames uo frames.
+Proof.
+  intros. unfold ds_frames, labels_after. rewrite map_map. apply map_ext. apply frame_after_considered.
+Qed.
+
+Lemma rebind_nil : forall uo, rebind uo [] = [].
+Proof. intros [|]; reflexivity. Qed.
+
+Lemma nth_labels_after : forall b uo frames f,
+  rebind uo (nth f (labels_after b uo frames) []) = rebind uo (nth f frames []).
+Proof.
+  intros b uo frames f. unfold labels_after.
+  assert (E : [] = frame_after b uo []) by (destruct b; [reflexivity|symmetry; apply rebind_nil]).
+  rewrite E at 1. rewrite map_nth. destruct b; [reflexivity|apply rebind_idem_l].
+Qed.
+
+Lemma second_dataset_centered_same_l : forall b fixed anchor uo s frames k,
+  centered_sample fixed anchor uo s (labels_after b uo frames) k = centered_sample fixed anchor uo s frames k.
+Proof.
+  intros. unfold centered_sample, centered_source. rewrite ds_frames_after_l.
+  destruct (nth_error (instance_idx_list (ds_frames uo frames)) k) as [[f i]|]; auto.
+  rewrite nth_labels_after. reflexivity.
+Qed.
+
+Lemma max_instances_after_le_l : forall b uo frames,
+  (max_instances (labels_after b uo frames) <= max_instances frames)%nat.
+Proof.
+  intros. unfold max_instances, labels_after. rewrite map_map.
+  induction frames as [|fr t IH]; simpl; auto.
+  assert (length (frame_after b uo fr) <= length fr)%nat by (destruct b; [auto|apply rebind_len]). lia.
+Qed.
+
+(* the second dataset's frame samples: same frame, same num_instances, same rows below it; only the
+   number of all-NaN padding rows follows the (possibly smaller) max_instances of the altered labels *)
+Lemma second_dataset_frame_rows_l : forall b uo s frames k rows1 n1 rows2 n2,
+  frame_sample uo s frames k = Some (rows1, n1) ->
+  frame_sample uo s (labels_after b uo frames) k = Some (rows2, n2) ->
+  n2 = n1 /\ (forall j, (j < n1)%nat -> nth_error rows2 j = nth_error rows1 j) /\
+  (forall j row, (n1 <= j)%nat -> nth_error rows2 j = Some row -> all_missing row = true).
+Proof.
+  intros b uo s frames k rows1 n1 rows2 n2 H1 H2.
+  pose proof (frame_sample_rows_l _ _ _ _ _ _ H2) as [f2 [_ [_ P2]]].
+  cbv zeta in P2. destruct P2 as [_ [_ [_ P2]]].
+  unfold frame_sample in H1, H2. rewrite ds_frames_after_l in *.
+  destruct (nth_error (lf_idx_list (ds_frames uo frames)) k) as [f|] eqn:E; [|discriminate].
+  cbv zeta in H1, H2. rewrite nth_labels_after in H2.
+  set (fr := rebind uo (nth f frames [])) in *.
+  assert (R1 : scale_rows s (fst (process_lf uo (max_instances frames) fr)) = rows1) by congruence.
+  assert (N1 : snd (process_lf uo (max_instances frames) fr) = n1) by congruence.
+  assert (R2 : scale_rows s (fst (process_lf uo (max_instances (labels_after b uo frames)) fr)) = rows2)
+    by congruence.
+  assert (N2 : snd (process_lf uo (max_instances (labels_after b uo frames)) fr) = n2) by congruence.
+  clear H1 H2. rewrite process_lf_num_l in N1, N2.
+  assert (En : n2 = n1) by congruence.
+  split; [exact En|]. split.
+  - intros j Hj. rewrite <- R1, <- R2. unfold scale_rows. rewrite !nth_error_map'.
+    rewrite !process_lf_row_l by (rewrite process_lf_num_l, N1; exact Hj). reflexivity.
+  - intros j row Hj Hr. apply (P2 j row); [rewrite En; exact Hj|exact Hr].
+Qed.
+
+Lemma second_dataset_frame_sample_partial_l : forall b uo s frames k,
+  max_instances (labels_after b uo frames) = max_instances frames ->
+  frame_sample uo s (labels_after b uo frames) k = frame_sample uo s frames k.
+Proof.
+  intros b uo s frames k Hm. unfold frame_sample. rewrite ds_frames_after_l, Hm.
+  destruct (nth_error (lf_idx_list (ds_frames uo frames)) k) as [f|]; auto.
+  cbv zeta. rewrite nth_labels_after. reflexivity.
+Qed.
+
+(* ------------------- sample_instance is what centered_sample keeps (review finding 4) -- *)
+
+(* the off-path definition Values.sample_instance and the evaluated Dataset.centered_sample agree:
+   the keypoints of sample k, shifted by any crop offset, are sample_instance of the source instance *)
+Lemma centered_sample_is_sample_instance_l : forall fixed anchor uo s frames k c kept,
+  centered_sample fixed anchor uo s frames k = Some (c, kept) ->
+  exists inst, centered_source uo frames k = Some inst /\
+    c = fst (gen_centroid fixed anchor (map (scale_kp s) inst)) /\
+    forall off, sample_instance fixed anchor s off inst = map (shift_kp off) kept.
+Proof.
+  intros fixed anchor uo s frames k c kept H. unfold centered_sample in H.
+  destruct (centered_source uo frames k) as [inst|]; [|discriminate]. exists inst.
+  inversion H as [E]. split; [reflexivity|]. rewrite E. simpl. split; [reflexivity|].
+  intro off. unfold sample_instance. rewrite E. reflexivity.
+Qed.
+
+(* missing stays missing ON the evaluated path, for both variants of generate_centroids: repaired
+   (fixed = true), or unrepaired outside selector_F5 *)
+Lemma centered_sample_missing_l : forall fixed anchor uo s frames k c kept inst,
+  centered_sample fixed anchor uo s frames k = Some (c, kept) ->
+  centered_source uo frames k = Some inst ->
+  fixed = true \/ selector_F5 anchor inst = false ->
+  kept = map (scale_kp s) inst /\
+  forall j, nth j kept None = None <-> nth j inst None = None.
+Proof.
+  intros fixed anchor uo s frames k c kept inst H Hs Hsel. unfold centered_sample in H.
+  rewrite Hs in H. inversion H as [E]; clear H.
+  assert (K : kept = map (scale_kp s) inst).
+  { destruct Hsel as [->|Hsel].
+    - pose proof (gen_centroid_fixed_preserves anchor (map (scale_kp s) inst)) as P.
+      rewrite E in P. exact P.
+    - destruct fixed.
+      + pose proof (gen_centroid_fixed_preserves anchor (map (scale_kp s) inst)) as P.
+        rewrite E in P. exact P.
+      + pose proof (gen_centroid_unfixed_partial anchor (map (scale_kp s) inst)) as P.
+        rewrite selector_scale in P. specialize (P Hsel). rewrite E in P. exact P. }
+  split; [exact K|]. intro j. rewrite K. apply scaled_missing_iff_l.
+Qed.
+
+(* the unrepaired variant (pinned tree, before fix 563a1fb) on the evaluated path: a sample of the
+   centered-instance dataset holds an invented anchor keypoint *)
+Lemma centered_sample_unfixed_refuted_l : exists anchor uo s frames k c kept inst j,
+  centered_sample false anchor uo s frames k = Some (c, kept) /\
+  centered_source uo frames k = Some inst /\ selector_F5 anchor inst = true /\
+  nth j inst None = None /\ nth j kept None <> None.
+Proof.
+  exists (Some 0%nat), true, 1%Q, [[mklinst true [None; Some (4 # 1, 6 # 1)]]], 0%nat.
+  eexists. eexists. eexists. exists 0%nat.
+  split; [vm_compute; reflexivity|]. split; [reflexivity|]. split; [reflexivity|].
+  split; [reflexivity|]. simpl. discriminate.
+Qed.
+
+(* gen_centroid inside the domain of generate_centroids (the anchor is a node) *)
+Lemma gen_centroid_fixed_preserves_dom_l : forall anchor inst,
+  anchor_domain anchor (length inst) = true -> snd (gen_centroid true anchor inst) = inst.
+Proof. intros anchor inst _. apply gen_centroid_fixed_preserves. Qed.
+
+Lemma centroid_missing_iff_empty_dom_l : forall fixed anchor inst,
+  anchor_domain anchor (length inst) = true ->
+  (fst (gen_centroid fixed anchor inst) = None <-> all_missing inst = true).
+Proof. intros fixed anchor inst _. apply centroid_missing_iff_empty_l. Qed.
+
+Lemma labels_unchanged_refuted_l : exists uo frames, labels_after false uo frames <> frames.
+Proof.
+  exists true, [[mklinst false [Some (9 # 1, 9 # 1)]; mklinst true [Some (1 # 1, 2 # 1)]]].
+  vm_compute. discriminate.
+Qed.
+
+(* a second dataset over the same label objects: its frame samples can differ (fewer padding rows) *)
+Lemma second_dataset_frame_sample_refuted_l : exists uo s frames k,
+  frame_sample uo s (labels_after false uo frames) k <> frame_sample uo s frames k.
+Proof.
+  exists true, 1%Q, [[mklinst false [Some (9 # 1, 9 # 1)]; mklinst false [Some (7 # 1, 9 # 1)];
+                       mklinst true [Some (1 # 1, 2 # 1)]];
+                      [mklinst true [Some (1 # 1, 2 # 1)]; mklinst true [Some (3 # 1, 2 # 1)]]], 0%nat.
+  vm_compute. discriminate.
+Qed.
